@@ -41,6 +41,9 @@ pub enum DnOp {
     NearTwin { from: usize, to: usize, variant: u8 },
     /// `to.clone_from(&from)` — the other assignment entry point of `Clone`
     CloneFrom { from: usize, to: usize },
+    /// the slot starts over from the name inside `CertificateParams::default()` (one common
+    /// name, the library's stand-in text) instead of from `DistinguishedName::new()`
+    FromDefaultParams { slot: usize },
     /// the slot becomes the subject name *imported* from a certificate made by OpenSSL whose
     /// subject lists these (OID, text) attributes in this order — types may repeat, which no
     /// name built by rcgen itself can express (needs x509-parser; skipped otherwise)
@@ -152,6 +155,9 @@ impl Engine for DnSim {
         let pool: Vec<DnTypeR> = (0..pool_n).map(|_| gen_dn_type(&mut r)).collect();
         let n = r.range(1, 40) as usize;
         let mut ops = Vec::new();
+        if r.chance(1, 4) {
+            ops.push(DnOp::FromDefaultParams { slot: r.usize(slots) });
+        }
         for _ in 0..n {
             let slot = r.usize(slots);
             let ty = if r.chance(9, 10) { r.pick(&pool).clone() } else { gen_dn_type(&mut r) };
@@ -170,7 +176,7 @@ impl Engine for DnSim {
                 17 => DnOp::Eq { a: slot, b: r.usize(slots) },
                 18 => match r.below(8) {
                     0 => DnOp::New { slot },
-                    1 => DnOp::Iter { slot },
+                    1 => DnOp::FromDefaultParams { slot },
                     2 | 3 => DnOp::NearTwin { from: slot, to: r.usize(slots), variant: r.below(4) as u8 },
                     4 => {
                         // a foreign subject: a few standard types (not country: OpenSSL insists on
@@ -357,6 +363,7 @@ impl Engine for DnSim {
                     | DnOp::Iter { slot }
                     | DnOp::Rotate { slot }
                     | DnOp::Churn { slot, .. }
+                    | DnOp::FromDefaultParams { slot }
                     | DnOp::New { slot } => *slot = 0,
                     DnOp::NearTwin { from, to, .. } | DnOp::CloneFrom { from, to } => {
                         *from = 0;
@@ -403,6 +410,7 @@ fn op_tag(op: &DnOp) -> String {
         DnOp::Churn { slot, ty, times } => format!("churn[{slot}] {:?} x{times}", ty),
         DnOp::NearTwin { from, to, variant } => format!("near-twin {from}->{to} v{variant}"),
         DnOp::CloneFrom { from, to } => format!("clone_from {from}->{to}"),
+        DnOp::FromDefaultParams { slot } => format!("from-default-params[{slot}]"),
         DnOp::Import { slot, attrs } => format!("import[{slot}] {:?}", attrs),
         DnOp::Encode { slot, how } => format!("encode[{slot}] {:?}", how),
     }
@@ -558,6 +566,11 @@ fn apply(
             real[*to] = dn;
             model[*to] = m;
             o.count("near_twins", 1);
+        }
+        DnOp::FromDefaultParams { slot } => {
+            real[*slot] = rcgen::CertificateParams::default().distinguished_name;
+            // what the documentation of the default parameters says the name is
+            model[*slot] = vec![(DnTypeR::Cn, DnValueR::Utf8("rcgen self signed cert".into()))];
         }
         DnOp::CloneFrom { from, to } => {
             let src = real[*from].clone();
